@@ -135,7 +135,7 @@ PROPS["C19"] = dict(
 )
 PROPS["C04"] = dict(
     level="other",
-    modules=["contracts.c_taproot", "contracts.c_ssa", "contracts.c_dsa", "contracts.c_curve", "contracts.c_protocols"],
+    modules=["contracts.c_taproot", "contracts.c_ssa", "contracts.c_dsa", "contracts.c_curve", "contracts.c_protocols", "contracts.c_history"],
     not_decided=["the C arm's results for all inputs: assumed; only the bounded differential below is checked"],
     assumptions=["btclib_secp256k1 (libsecp256k1 bindings) is trusted code outside the Python subset"],
     explanation="Every dual-path API under contract is run on both arms (set_libsecp256k1_serving True/False) over generated inputs (valid and malformed): both must satisfy the same contract and give the same value / the same exception class (arms.differ obligation). Bounded differential, labelled bounded; no proof about the C arm.",
@@ -160,9 +160,34 @@ PROPS["C16"] = dict(
 )
 PROPS["C20"] = dict(
     level="other",
-    modules=["contracts.c_protocols"],
+    modules=["contracts.c_protocols", "contracts.c_history"],
     not_decided=["thread interleavings (no concurrency reasoning in this family)", "cache transparency of memoised tables"],
     assumptions=[],
     explanation="Bounded stand-ins on call sequences: a MuSig2 secret nonce is zeroed by a successful sign and every later sign with it is refused; signer and wallet ledgers are exercised by generated call sequences against a reference ledger; not proved.",
+    bounded=[],
+)
+
+PROPS["C13"] = dict(
+    level="other",
+    modules=["contracts.c_mnemonic"],
+    not_decided=["Electrum version search, BIP85; all SLIP39 subsets (one qualifying subset, one wrong passphrase and one short subset per configuration are sampled)"],
+    assumptions=["hashlib sha256 / pbkdf2_hmac"],
+    explanation="Deductive: the live GF(2^8) tables are the field (ground obligation), RS1024 checksum closure for all 10-bit symbols. Bounded stand-ins: BIP39 encode/decode against the BIP's algorithm recomputed with hashlib in every language, checksum acceptance under single-word substitution, PBKDF2 seeds, SLIP39 split/recover; not proved.",
+    bounded=[],
+)
+PROPS["C14"] = dict(
+    level="other",
+    modules=["contracts.c_descriptors", "contracts.c_history"],
+    not_decided=["musig(), miniscript and raw()/addr()/combo() descriptors; all 2^31 indexes (0..11 sampled)"],
+    assumptions=["independent BIP32 / BIP341 references in /verif/spec"],
+    explanation="Deductive: the BIP380 polymod equals the reference bit-by-bit step (all symbol values, 1..5 symbols). Bounded stand-ins: derived scripts against the independent BIP32 reference and hand assembly, text round trip, checksum, index_of / position_of, single-character corruption; not proved.",
+    bounded=[],
+)
+PROPS["C15"] = dict(
+    level="other",
+    modules=["contracts.c_miniscript"],
+    not_decided=["satisfaction vs the engine, witness-size bounds, 'no satisfaction when the condition is false'"],
+    assumptions=[],
+    explanation="Bounded stand-in: generated well-typed expressions (every fragment and wrapper listed in the rule, depth <= 2, both contexts): predicted size = compiled size, read-back compiles to the same script, text re-parses to the same expression; not proved.",
     bounded=[],
 )
